@@ -21,6 +21,7 @@ func checkC09(c *Ctx) {
 		return
 	}
 	c.disconnectCase()
+	c.completionCallsTestTheFunc()
 	teardownOrder(c, "C09")
 	c.willArgument()
 	pumpsCloseRing(c)
